@@ -826,6 +826,11 @@ class Machine:
                     if g.OB:
                         self.violate('STREAM', path, 'the hunk-line handler returns with rendered text still held in output_buffer '
                                      '(output lags behind the input by more than the open subhunk)', g, facet='OB')
+                if path not in self.HLH and g.OB and not self.passthrough and self.SVN[g.S] not in ('Blame', 'Grep', 'GitShowFile', 'MergeConflict'):
+                    # rendered text must have been written by the time the next line is read (the renderers of foreign formats write
+                    # one line late by design, and a conflict region is buffered as a whole: both are outside the statement about hunks)
+                    self.violate('STREAM', path, 'a handler returns, about to read the next input line, with rendered text still held in output_buffer '
+                                 '(an already closed run of lines stays unwritten until some later line happens to flush it)', g, facet='OB-boundary')
                 if self.color_only and self.SVN[g.S] not in ('Blame', 'Grep', 'GitShowFile'):
                     # C02-b (diff input only; blame/grep/show renderings are outside the line-for-line contract): exactly one output line per input line (own newlines + deferrals), plus the release of a deferred header
                     total = g.NL + g.DEF
